@@ -4,9 +4,15 @@
 //   -DC04_PUBLIC_API   : tapkee::with((method = Isomap, ...)).withDistance(cb).embedUsing(idx)   (thorough tier)
 // The eigen observer (hook 3, TAPKEE_VERIF) captures the matrix handed to the eigensolver.
 //
+// The neighbour lists are OBSERVED from inside embed(): the distance callback records every query; the brute-force
+// search makes complete row-major sweeps of N*N queries (one sweep per round of the connectivity doubling), every
+// later query (u, w) comes from the relax loop, which asks for exactly the edges u -> neighbors[u][i] (row u of the
+// Dijkstra settles u first and then queries all of its list).  So rounds = number of sweeps and the edge set = the
+// queries after the sweeps; nothing is recomputed with settings of the harness's own.
+//
 // in : iso N=8 k=3 d=2 w=<distance matrix> [eig=dense|randomized] [cc=0|1]
-// out: nb=<lists> calls=1 pre=<matrix handed to the eigensolver> ev=<eigenvalues> Y=<embedding rows>
-//      | throw:<exception text>
+// out: nb=<observed lists, sorted> rounds=<sweeps> then  calls=1 pre=<matrix handed to the eigensolver> ev=<eigenvalues>
+//      Y=<embedding rows>   or   throw=<exception text>
 #ifdef C04_PUBLIC_API
 #include <tapkee/tapkee.hpp>
 #else
@@ -18,6 +24,8 @@
 #include <tapkee/callbacks/dummy_callbacks.hpp>
 #endif
 #include <tapkee/callbacks/precomputed_callbacks.hpp>
+
+#include <set>
 
 #include "c04_common.hpp"
 
@@ -33,6 +41,49 @@ static void observer(const DenseMatrix& lhs, const DenseMatrix&, const Eigendeco
     g_calls++;
 }
 
+// ------------------------------------------------------------------ recording distance callback
+struct query_log
+{
+    std::vector<std::pair<int, int>> q;
+};
+
+struct recording_distance
+{
+    const DenseMatrix* W;
+    query_log* log;
+    inline ScalarType distance(int a, int b) const
+    {
+#pragma omp critical(c04_record)
+        log->q.push_back(std::make_pair(a, b));
+        return (*W)(a, b);
+    }
+};
+
+// split the query log into complete brute-force sweeps and the relax loop's edge queries
+static void observed_lists(const query_log& log, IndexType N, Neighbors& nb, int& rounds)
+{
+    size_t pos = 0;
+    rounds = 0;
+    const size_t sweep = (size_t)N * (size_t)N;
+    while (pos + sweep <= log.q.size())
+    {
+        bool is_sweep = true;
+        for (size_t t = 0; t < sweep && is_sweep; t++)
+            is_sweep = log.q[pos + t].first == (int)(t / N) && log.q[pos + t].second == (int)(t % N);
+        if (!is_sweep)
+            break;
+        pos += sweep;
+        rounds++;
+    }
+    std::vector<std::set<IndexType>> sets(N);
+    for (; pos < log.q.size(); pos++)
+        if (log.q[pos].first >= 0 && log.q[pos].first < N)
+            sets[log.q[pos].first].insert(log.q[pos].second);
+    nb.clear();
+    for (IndexType u = 0; u < N; u++)
+        nb.push_back(LocalNeighbors(sets[u].begin(), sets[u].end()));
+}
+
 static std::string run_iso(std::map<std::string, std::string>& f)
 {
     IndexType N = std::stoi(f["N"]);
@@ -44,19 +95,22 @@ static std::string run_iso(std::map<std::string, std::string>& f)
     std::vector<IndexType> idx(N);
     for (IndexType i = 0; i < N; i++)
         idx[i] = i;
-    precomputed_distance_callback dcb(W);
+    query_log log;
+    recording_distance dcb{&W, &log};
     g_calls = 0;
     g_seen.resize(0, 0);
     verif_eigen_observer::get() = observer;
     std::ostringstream o;
+    std::string thrown;
+    TapkeeOutput out;
     try
     {
         typedef std::vector<IndexType>::iterator It;
 #ifdef C04_PUBLIC_API
-        TapkeeOutput out = with((method = Isomap, num_neighbors = k, target_dimension = d, neighbors_method = Brute,
-                                 eigen_method = em, check_connectivity = cc))
-                               .withDistance(dcb)
-                               .embedUsing(idx);
+        out = with((method = Isomap, num_neighbors = k, target_dimension = d, neighbors_method = Brute,
+                    eigen_method = em, check_connectivity = cc))
+                  .withDistance(dcb)
+                  .embedUsing(idx);
 #else
         // the statements of tapkee::embed + DynamicImplementation::embedUsing for method == Isomap
         stichwort::ParametersSet parameters = (method = Isomap, num_neighbors = k, target_dimension = d,
@@ -66,28 +120,32 @@ static std::string run_iso(std::map<std::string, std::string>& f)
         Context context(nullptr, nullptr);
         typedef dummy_kernel_callback<IndexType> KC;
         typedef dummy_features_callback<IndexType> FC;
-        ImplementationBase<It, KC, precomputed_distance_callback, FC> base(idx.begin(), idx.end(), KC(), dcb, FC(),
-                                                                            parameters, context);
-        IsomapImplementation<It, KC, precomputed_distance_callback, FC> implementation(base);
+        ImplementationBase<It, KC, recording_distance, FC> base(idx.begin(), idx.end(), KC(), dcb, FC(), parameters,
+                                                               context);
+        IsomapImplementation<It, KC, recording_distance, FC> implementation(base);
         implementation.validate();
-        TapkeeOutput out = implementation.embed();
+        out = implementation.embed();
 #endif
-        // the neighbour lists embed() used: the same deterministic search on the same input
-        PlainDistance<It, precomputed_distance_callback> pd(dcb);
-        Neighbors nb = find_neighbors(Brute, idx.begin(), idx.end(), pd, k, cc);
-        o << "nb=" << show_lists(nb) << " calls=" << g_calls << " pre=" << show_matrix(g_seen)
-          << " ev=" << show_matrix(DenseMatrix(g_result.second.transpose())) << " Y=" << show_matrix(out.embedding);
     }
     catch (const std::exception& ex)
     {
-        std::string w = ex.what();
-        for (auto& c : w)
+        thrown = ex.what();
+        if (thrown.empty())
+            thrown = "exception";
+        for (auto& c : thrown)
             if (c == ' ')
                 c = '_';
-        o.str("");
-        o << "throw:" << w;
     }
     verif_eigen_observer::get() = NULL;
+    Neighbors nb;
+    int rounds = 0;
+    observed_lists(log, N, nb, rounds);
+    o << "nb=" << show_lists(nb) << " rounds=" << rounds;
+    if (!thrown.empty())
+        o << " throw=" << thrown;
+    else
+        o << " calls=" << g_calls << " pre=" << show_matrix(g_seen)
+          << " ev=" << show_matrix(DenseMatrix(g_result.second.transpose())) << " Y=" << show_matrix(out.embedding);
     return o.str();
 }
 
